@@ -61,10 +61,12 @@ func checkTrace(dir string, seg uint64) {
 					}
 				}
 				vrt.Assert("C07.ack-implies-file-fsync-after-last-write", synced)
-				// the file's directory entry: a successful directory fsync after its creation, before this ACK
+				// the file's directory entry: a successful directory fsync after this process
+				// created it - or opened it for writing (its creator may have died before
+				// syncing the directory) - and before this ACK
 				created := -1
 				for k := 0; k < i; k++ {
-					if ev[k].Op == "open" && ev[k].OK && ev[k].Path == f && ev[k].A&oCREATE != 0 {
+					if ev[k].Op == "open" && ev[k].OK && ev[k].Path == f && ev[k].A&(oCREATE|oRDWR) != 0 {
 						created = k
 					}
 				}
@@ -153,6 +155,19 @@ func HarnessFS() {
 		}
 	}
 	l.Close()
+	if vrt.Param("reopen", 1) == 1 {
+		// a second incarnation recovers the tail through OpenWriter and commits into it
+		meta2 := meta.Survive(sym.NewWorld())
+		l2, err := wal.Open(dir, wal.WithSegmentFiler(segment.NewFiler(dir, fs.New())), wal.WithMetaStore(meta2), wal.WithSegmentSize(seg))
+		if err == nil {
+			last, _ := l2.LastIndex()
+			if l2.StoreLog(&raft.Log{Index: last + 1, Term: 2, Data: []byte{9}}) == nil {
+				vrt.Mark("ACK")
+				vrt.Reach("reopened-and-acked")
+			}
+			l2.Close()
+		}
+	}
 	if vrt.Symbolic() {
 		checkTrace(dir, uint64(seg))
 	}
